@@ -323,6 +323,9 @@ def merge_results(chk, results):
             if len(chk.samples) < chk.max_samples:
                 chk.samples.append(s)
         for v in res.get("violations", []):
+            if v["key"].startswith("harness:"):  # a failure of the harness itself is never a verdict
+                chk.inconclusive.append("%s %s" % (v["key"], str(v["what"])[-300:]))
+                continue
             chk.violation(v["key"], v["what"], v["witness"])
         for k, v in (res.get("extra") or {}).items():
             if isinstance(v, list):
